@@ -16,7 +16,8 @@ import (
 // One line per case:   limit <kind> <size> <observed> <measure>
 // observed: ok | compile-error | panic | wrong ; measure: the quantity the model takes as input
 // (live locals / positional items / constants in the unit / opcodes of the longest function — the last
-// two are MEASURED on the compiled unit when it compiles, and given by construction otherwise).
+// two are given by construction and CHECKED against the compiled unit whenever it compiles: a mismatch
+// is reported as `miscount`).
 
 type limitCase struct {
 	kind string
@@ -90,9 +91,9 @@ func limitProgram(kind string, n int) (src string, expect string, measure int) {
 		sb.WriteString("return 1")
 		return sb.String(), "i1", n
 	case "straight-line":
-		return "local x = 0 " + rep("x = x + 1 ", n) + "return x", encI(n), 0
+		return "local x = 0 " + rep("x = x + 1 ", n) + "return x", encI(n), 3*n + 4 // opcodes by construction, checked below
 	case "skipped-body":
-		return "local x, c = 0, false if c then " + rep("x = x + 1 ", n) + "end return x", "i0", 0
+		return "local x, c = 0, false if c then " + rep("x = x + 1 ", n) + "end return x", "i0", 3*n + 6
 	}
 	return "", "", 0
 }
@@ -123,7 +124,9 @@ func runLimitCase(c limitCase) string {
 				return "miscount", strconv.Itoa(len(unit.Constants))
 			}
 		case "straight-line", "skipped-body":
-			measure = maxFn
+			if maxFn != measure {
+				return "miscount", strconv.Itoa(maxFn)
+			}
 		}
 		clos = r.LoadLuaUnit(unit, rt.TableValue(r.GlobalEnv()))
 		return clsOK, ""
